@@ -60,6 +60,7 @@ structure Marks where
   marked : Nat := 0
   unmarked : Nat := 0
   maxDepth : Nat := 0
+  maxMarkedKids : Nat := 0     -- largest number of marked children of one node (cf. `marked_fanout_bound`)
   fail : Option String := none
   deriving Repr
 
@@ -90,6 +91,8 @@ mutual
           if d'.addr == d.addr && d'.symbol == d.symbol && decide (d'.padding = d.padding) && decide (d'.size = d.size)
               && d'.lookahead == d.lookahead && ks.length == ks'.length then m
           else m.bad s!"unmarked_shared fails: unmarked node at offset {off} is not the same object as before the edit"
+      let mk := (ks'.filter (fun k => k.data.hasChanges)).length
+      let m := { m with maxMarkedKids := max m.maxMarkedKids mk }
       if d'.hasChanges then marksKids start oldEnd ks ks' off (depth + 1) col m
       else m   -- an unmarked subtree is the same object: nothing below it can differ
   def marksKids (start oldEnd : Nat) (ks ks' : List Tree) (off depth : Nat) (col : Bool) (m : Marks) : Marks :=
